@@ -85,6 +85,17 @@ def main():
             print(m["id"], "suite=" + suite, per, flush=True)
         finally:
             restore()
+    # persist (merge with earlier results)
+    resfile = os.path.join(ROOT, "mutants_results.json")
+    try:
+        allres = json.load(open(resfile))
+    except Exception:
+        allres = {}
+    for mid, suite, per in results:
+        e = allres.setdefault(mid, {"suite": suite, "checks": {}})
+        e["suite"] = suite
+        e["checks"].update(per)
+    json.dump(allres, open(resfile, "w"), indent=1, sort_keys=True)
     print("\n== summary ==")
     for r in results:
         print(r)
